@@ -159,6 +159,9 @@ fn rand_cmd(rng: &mut Rng, allow_quit: bool) -> Cmd {
 
 pub fn run_case(rep: &Report, c: &Case, rng: &mut Rng, core: Option<usize>) {
     rep.eval(1);
+    if matches!(core, Some(0..=3)) {
+        rep.sample(format!("mode {:?} source {:?}", c.mode, c.stepped.text));
+    }
     let interpreted = matches!(c.mode, Mode::Flag | Mode::FlagInt3);
     let wit = |detail: &str, stdin: &[u8], out: &CliOut| {
         format!(
@@ -412,9 +415,6 @@ pub fn run_case(rep: &Report, c: &Case, rng: &mut Rng, core: Option<usize>) {
                 }
             }
         }
-    }
-    if core == Some(2) {
-        rep.sample(format!("mode {:?} source {:?}", c.mode, c.stepped.text));
     }
 }
 
